@@ -5,7 +5,7 @@ For every source file under src/redress (cli, testing helpers and contrib exclud
 turned into one mutant (the file re-rendered with ast.unparse, so the diff is against the re-rendered original). Stage 1 runs the
 repository's own test suite on a scratch copy: a mutant that fails it is not "a change that passes the existing tests" and is dropped.
 Stage 2 runs the property checks against the copy (VERIF_REPO=<copy>, quick tier): first the checks whose property is anchored in
-the mutated file, then all others, stopping at the first check that exits 1. A mutant no check flags is a SURVIVOR: either equivalent
+the mutated file, then the other checks that exercise that file (all twenty with --all-checks), stopping at the first check that exits 1. A mutant no check flags is a SURVIVOR: either equivalent
 (behaviour-preserving under the twenty properties) or a gap. Survivors are listed with their diff for triage by hand.
 
 usage: tools/auto_mutants.py [--jobs N] [--files a.py,b.py] [--limit K] [--sample P] [--out mutants/AUTO]
@@ -30,7 +30,20 @@ ROOT = os.path.dirname(os.path.dirname(os.path.abspath(__file__)))
 REPO = os.environ.get("VERIF_REPO_BASE", "/repo")
 PY = "/venv/bin/python"
 ALL = [f"C{i:02d}" for i in range(1, 21)]
-SKIP = ("cli.py", "testing/", "contrib/", "metrics.py", "__init__.py")
+SKIP = ("cli.py", "testing/", "contrib/", "metrics.py", "__init__.py",
+        # classifiers for optional libraries that are not installed here: only their import-guarded fallback can run
+        "extras/aiohttp.py", "extras/boto3.py", "extras/grpc.py", "extras/redis.py", "extras/urllib3.py")
+# checks worth running on a mutant of a file, beyond those whose property is anchored in it (a survivor costs one run of each)
+ALSO = {
+    "src/redress/circuit.py": ["C06", "C07", "C08", "C09", "C17", "C14", "C12"],
+    "src/redress/budget.py": ["C10", "C17", "C03", "C01"],
+    "src/redress/strategies.py": ["C18", "C20", "C05", "C16", "C02"],
+    "src/redress/classify.py": ["C19", "C20", "C01"],
+    "src/redress/extras/": ["C19", "C20"],
+    "src/redress/policy/": ["C03", "C12", "C14", "C11", "C04", "C05", "C13", "C16", "C08", "C09", "C01", "C02", "C15"],
+    "src/redress/config.py": ["C12", "C03"],
+    "src/redress/errors.py": ["C04", "C11", "C19"],
+}
 
 CMP = {ast.Lt: ast.LtE, ast.LtE: ast.Lt, ast.Gt: ast.GtE, ast.GtE: ast.Gt, ast.Eq: ast.NotEq, ast.NotEq: ast.Eq, ast.Is: ast.IsNot, ast.IsNot: ast.Is,
        ast.In: ast.NotIn, ast.NotIn: ast.In}
@@ -290,6 +303,7 @@ def main():
     ap.add_argument("--limit", type=int, default=0)
     ap.add_argument("--sample", type=float, default=1.0)
     ap.add_argument("--list", action="store_true")
+    ap.add_argument("--all-checks", action="store_true")
     ap.add_argument("--out", default=os.path.join(ROOT, "mutants", "AUTO"))
     a = ap.parse_args()
     anch = anchored()
@@ -321,7 +335,10 @@ def main():
         if k in prev and (prev[k].get("suite") == "FAIL" or prev[k].get("caught_by")):
             return prev[k]
         first = anch.get(m["file"], [])
-        order = first + [p for p in ALL if p not in first]
+        more = next((v for k, v in ALSO.items() if m["file"].startswith(k)), ALL)
+        order = first + [p for p in (ALL if a.all_checks else more) if p not in first]
+        if k in prev and prev[k].get("checks") and all(p in prev[k]["checks"] for p in order):
+            return prev[k]
         return one(m, order, a.tier)
 
     with cf.ThreadPoolExecutor(max_workers=a.jobs) as ex:
